@@ -90,7 +90,8 @@ func c10Dial(c *kernel.Ctx, root *simnet.Listener, name string, ws bool) *mqttc.
 func runC10(c *kernel.Ctx) {
 	t := c.Tape
 	c.SleepToEpoch()
-	baton := &kernel.Baton{NoParkUnder: []string{"websocketTransport).Write"}} // that method holds its mutex across the socket write
+	baton := kernel.NewBaton()
+	baton.NoParkUnder = []string{"websocketTransport).Write"} // that method holds its mutex across the socket write
 	verifyield.Hook = baton.Hook
 	defer func() { verifyield.Hook = nil }()
 	rate := []int{1, 2, 60, 1000}[t.Choose(4)]
